@@ -31,6 +31,7 @@ func NewPeerWorld(seed uint64, mtu uint32, o NodeOpts) *PeerWorld {
 	}
 	w.S = w.NewNode("S", mtu, A4, A6, -1, o)
 	w.Mon = NewMonitor()
+	w.peerMon = true
 	w.AttachMonitor(w.Mon, func(d *Decoded) { w.Seen = append(w.Seen, d) })
 	w.Settle()
 	return w
